@@ -181,6 +181,17 @@ PURE_BUILTINS = {"ord": ord, "chr": chr, "zip": zip, "dict": dict, "len": len, "
                  "any": any, "all": all, "sum": sum, "abs": abs, "int": int, "bool": bool, "divmod": divmod, "repr": repr}
 
 
+def _own_walk(fn):
+    """nodes of a function body, nested functions and lambdas excluded"""
+    stack = list(fn.body)
+    while stack:
+        n = stack.pop()
+        yield n
+        if isinstance(n, (ast.FunctionDef, ast.AsyncFunctionDef, ast.Lambda, ast.ClassDef)):
+            continue
+        stack.extend(ast.iter_child_nodes(n))
+
+
 class _ClassScope(dict):
     """names of a class body, evaluated on demand (only plain data attributes: functions are not names of the scope an
     expression of the body can call before the class exists ... they are, but the repo's tables never do)"""
@@ -294,11 +305,14 @@ class Folder(object):
                 env[a.kwarg.arg] = kwargs
             elif kwargs:
                 raise AnalysisError("%s: unexpected keywords %s in constant folding" % (fi.qualname, sorted(kwargs)))
+            is_gen = any(isinstance(n, (ast.Yield, ast.YieldFrom)) for n in _own_walk(fi.node))
+            if is_gen:
+                fr.yielded = []  # a generator of constants: evaluated eagerly into the list of what it yields
             try:
                 fr.block(fi.node.body)
             except _Return as r:
-                return r.value
-            return None
+                return fr.yielded if is_gen else r.value
+            return fr.yielded if is_gen else None
         finally:
             self.depth -= 1
 
@@ -339,6 +353,12 @@ class _Frame(object):
         self.tick(st)
         if isinstance(st, ast.Expr):
             if isinstance(st.value, ast.Constant):
+                return
+            if isinstance(st.value, ast.Yield) and getattr(self, "yielded", None) is not None:
+                self.yielded.append(self.expr(st.value.value) if st.value.value is not None else None)
+                return
+            if isinstance(st.value, ast.YieldFrom) and getattr(self, "yielded", None) is not None:
+                self.yielded.extend(list(self.expr(st.value.value)))
                 return
             self.expr(st.value)
             return
